@@ -152,7 +152,7 @@ def run_fn(case):
     span = abs(ref[-1] - ref[0]) + 1e-9
     tol = 1e-6 * span
     for j in range(len(grid)):
-        if abs((t[j] - t[0]) - (ref[j] - ref[0])) > tol:
+        if not abs((t[j] - t[0]) - (ref[j] - ref[0])) <= tol:
             viol.append((
                 'difference-is-not-the-integral',
                 '%r ET=%r curvature=%r: t(%r)-t(%r) = %r, integral of '
@@ -160,18 +160,19 @@ def run_fn(case):
                 % (case['params'], et, curv, grid[j], grid[0], t[j] - t[0],
                    ref[j] - ref[0])))
             break
-    if abs(sum(t) / len(t) - case['mean']) > tol + 1e-12:
+    if not abs(sum(t) / len(t) - case['mean']) <= tol + 1e-12:
         viol.append(('mean-not-as-requested', '%r vs %r'
                      % (sum(t) / len(t), case['mean'])))
     by_level = sorted(zip(grid, t))
-    if any(b > a + tol for (_, a), (_, b) in zip(by_level, by_level[1:])):
+    sy_nonneg = min(float(sy(z)) for z in refine(sorted(grid), 4)) >= 0
+    if sy_nonneg and any(b > a + tol for (_, a), (_, b) in zip(by_level, by_level[1:])):
         viol.append(('time-does-not-increase-as-level-falls',
                      repr(by_level[:4])))
     # reversal and refinement: same values at shared levels
     t_base = real(base, 0.0)
     at = dict(zip(grid, t))
     for z, v in zip(base, t_base):
-        if abs((at[z] - at[base[0]]) - (v - t_base[0])) > tol:
+        if not abs((at[z] - at[base[0]]) - (v - t_base[0])) <= tol:
             viol.append((
                 'changes-under-reversal-or-refinement',
                 'level %r: %r here, %r on the coarse ascending grid '
@@ -185,7 +186,7 @@ def run_fn(case):
         for z in grid:
             lhs = et * (at[z] - at[grid[0]])
             rhs = -(Wat[z] - Wat[grid[0]])
-            if abs(lhs - rhs) > 1e-6 * (abs(W[-1] - W[0]) + 1e-9):
+            if not abs(lhs - rhs) <= 1e-6 * (abs(W[-1] - W[0]) + 1e-9):
                 viol.append((
                     'water-balance',
                     'zero curvature: ET x elapsed time = %r mm but storage '
@@ -283,7 +284,7 @@ def run_cli(case):
                     'level column %r, expected levels in mm from highest '
                     'to lowest %r' % ([r[0] for r in rows][:4],
                                       want_levels[:4])))
-            if any(abs(r[1] - m) > 1e-12 * (abs(m) + 1)
+            if any(not abs(r[1] - m) <= 1e-12 * (abs(m) + 1)
                    for r, m in zip(rows, want_measured)):
                 viol.append(('table-measured',
                              'measured column %r, expected %r'
